@@ -13,6 +13,9 @@ from __future__ import annotations
 import ast
 import copy
 import hashlib
+import os
+
+from . import strong
 
 FUNC = (ast.FunctionDef, ast.AsyncFunctionDef)
 
@@ -49,11 +52,16 @@ def _locals_in_order(fn):
 
 class _Canon(ast.NodeTransformer):
 
-  def __init__(self):
+  def __init__(self, uniq=False):
     self.env = [{}]
     self.counter = [0]
+    self.uniq = uniq  # every local of every scope gets a name of its own (pre-pass of the strong normal form)
+    self.total = 0
 
   def _fresh(self):
+    if self.uniq:
+      self.total += 1
+      return '_u%d' % self.total
     self.counter[-1] += 1
     return '_v%d' % self.counter[-1]
 
@@ -168,8 +176,24 @@ class _Canon(ast.NodeTransformer):
     return node
 
 
+def _detached_copy(node):
+  """Deep copy of a subtree without the analysis annotations (parent pointers would drag the whole module along)."""
+  memo = {}
+  par = getattr(node, '_vf_parent', None)
+  if par is not None:
+    memo[id(par)] = None
+  n = copy.deepcopy(node, memo)
+  for x in ast.walk(n):
+    for k in [k for k in vars(x) if k.startswith('_vf_')]:
+      delattr(x, k)
+  return n
+
+
 def canon_dump(node) -> str:
-  n = copy.deepcopy(node)
+  n = _detached_copy(node)
+  if not os.environ.get('VF_WEAK_CANON'):
+    n = _Canon(uniq=True).visit(n)
+    n = strong.strengthen(n)
   n = _Canon().visit(n)
   if isinstance(n, ast.Module):
     n.body = _Canon()._strip_doc(n.body)
@@ -221,7 +245,17 @@ def digest_qual(module_tree, qual, cache=None) -> str:
   key = (id(module_tree), parts[0])
   ctop = cache.get(key) if cache is not None else None
   if ctop is None:
-    ctop = _Canon().visit(copy.deepcopy(top))
+    ctop = _detached_copy(top)
+    if not os.environ.get('VF_WEAK_CANON'):
+      mk = ('module-names', id(module_tree))
+      names = cache.get(mk) if cache is not None else None
+      if names is None:
+        names = strong._module_names(module_tree)
+        if cache is not None:
+          cache[mk] = names
+      ctop = _Canon(uniq=True).visit(ctop)
+      ctop = strong.strengthen(ctop, names)
+    ctop = _Canon().visit(ctop)
     if cache is not None:
       cache[key] = ctop
   node = _find(ctop, parts[1:]) if len(parts) > 1 else ctop
